@@ -488,3 +488,101 @@ package raft
 //@              !(lastEntryTerm(r) > req.LastLogTerm) && !(lastEntryTerm(r) == req.LastLogTerm && lastEntryIndex(r) > req.LastLogIndex)
 //@   ensures  grant_requires_voter: preVoteResp(rpc).Granted && len(r.configurations.latest.Servers) > 0 ==>
 //@              hasVoteSpec(r.configurations.latest, ServerID(content(req.ID)))
+
+// ---------------------------------------------------------------------------
+// C04 / C03 / C05 (follower side): AppendEntries handler
+
+//@ func DecodeConfiguration
+//@   trusted msgpack decoding (third-party codec): returns some configuration, panics on malformed input, writes nothing
+//@   modifies nothing
+
+//@ func decodePeers
+//@   trusted legacy peer-list decoding (third-party codec): writes nothing
+//@   modifies nothing
+
+//@ func (r *Raft) processConfigurationLogEntry
+//@   requires nonnil: r != nil && entry != nil && r.trans != nil
+//@   modifies r.configurations.committed, r.configurations.committedIndex, r.configurations.latest, r.configurations.latestIndex, r.latestConfiguration
+//@   ensures  other_types_untouched: entry.Type != LogConfiguration && entry.Type != LogAddPeerDeprecated && entry.Type != LogRemovePeerDeprecated ==>
+//@              r.configurations.latestIndex == old(r.configurations.latestIndex) && r.configurations.committedIndex == old(r.configurations.committedIndex) &&
+//@              r.configurations.latest == old(r.configurations.latest) && r.configurations.committed == old(r.configurations.committed)
+//@   ensures  configuration_entry: entry.Type == LogConfiguration ==> result == nil &&
+//@              r.configurations.latestIndex == entry.Index && r.configurations.committedIndex == old(r.configurations.latestIndex) &&
+//@              r.configurations.committed == old(r.configurations.latest)
+
+//@ func (r *Raft) processLogs
+//@   trusted hands entries lastApplied+1..index to the FSM goroutine; to be verified under C02
+//@   modifies r.lastApplied, sent(r.fsmMutateCh)
+//@   ensures  applied: r.lastApplied == max(old(r.lastApplied), index)
+
+//@ spec func aeResp(rpc RPC) *AppendEntriesResponse = cast(lastsent(rpc.RespChan).Response, *AppendEntriesResponse)
+//@ spec func wfAppend(a *AppendEntriesRequest) bool =
+//@   (forall k int :: 0 <= k && k < len(a.Entries) ==> a.Entries[k] != nil && a.Entries[k].Index == a.PrevLogEntry + 1 + k) &&
+//@   a.PrevLogEntry + len(a.Entries) < MaxInt63 && a.Term < MaxInt63
+
+//@ spec func tailInv(r *Raft) bool = r.lastLogIndex > 0 ==>
+//@   (r.logs.has[r.lastLogIndex] && r.logs.ent[r.lastLogIndex].Term == r.lastLogTerm) ||
+//@   (r.lastLogIndex == r.lastSnapshotIndex && r.lastLogTerm == r.lastSnapshotTerm)
+//@ spec func noneAboveTail(r *Raft) bool = forall x uint64 :: x > r.lastLogIndex ==> !r.logs.has[x]
+//@ spec func somethingDeleted(r *Raft) bool = exists x uint64 :: old(r.logs.has[x]) && !r.logs.has[x]
+
+//@ func (r *Raft) appendEntries
+//@   requires nonnil: r != nil && a != nil && r.stable != nil && r.trans != nil && r.logger != nil && r.logs != nil && rpc.RespChan != nil && typeis(r.conf.v, Config)
+//@   requires wf: wfAppend(a)
+//@   requires term_inv: r.currentTerm == curTermDurable(r)
+//@   requires tail: tailInv(r) && noneAboveTail(r)
+//@   ensures  tail_consistent: aeResp(rpc).Success ==> tailInv(r)
+//@   ensures  tail_consistent_after_failed_store: tailInv(r)
+//@   ensures  none_above_tail: lastsent(rpc.RespChan).Error == nil ==> noneAboveTail(r)
+//@   ensures  responded: sent(rpc.RespChan) == old(sent(rpc.RespChan)) + 1 && typeis(lastsent(rpc.RespChan).Response, *AppendEntriesResponse)
+//@   ensures  term_inv: r.currentTerm == curTermDurable(r)
+//@   ensures  term_monotone: r.currentTerm >= old(r.currentTerm)
+//@   ensures  stale_term_ignored: a.Term < old(r.currentTerm) ==> !aeResp(rpc).Success && r.currentTerm == old(r.currentTerm) && r.state == old(r.state) &&
+//@              r.logs.has == old(r.logs.has) && r.logs.ent == old(r.logs.ent) && r.commitIndex == old(r.commitIndex) && r.lastLogIndex == old(r.lastLogIndex)
+//@   ensures  term_change_resets_role: r.currentTerm != old(r.currentTerm) ==> r.state == Follower
+//@   ensures  success_in_leader_term: aeResp(rpc).Success ==> r.currentTerm == a.Term
+//@   ensures  prev_check: aeResp(rpc).Success && a.PrevLogEntry > 0 ==>
+//@              (a.PrevLogEntry == old(lastEntryIndex(r)) && a.PrevLogTerm == old(lastEntryTerm(r))) ||
+//@              (old(r.logs.has[a.PrevLogEntry]) && old(r.logs.ent[a.PrevLogEntry].Term) == a.PrevLogTerm)
+//@   ensures  success_means_match: aeResp(rpc).Success ==> forall k int :: 0 <= k && k < len(a.Entries) ==>
+//@              r.logs.has[a.Entries[k].Index] && r.logs.ent[a.Entries[k].Index].Term == a.Entries[k].Term
+//@   ensures  nothing_deleted_at_or_below_matching_prefix: forall x uint64, k int ::
+//@              old(r.logs.has[x]) && !r.logs.has[x] && 0 <= k && k < len(a.Entries) &&
+//@              (forall j int :: 0 <= j && j <= k ==> a.Entries[j].Index <= old(r.lastLogIndex) &&
+//@                  old(r.logs.has[a.Entries[j].Index]) && old(r.logs.ent[a.Entries[j].Index].Term) == a.Entries[j].Term)
+//@              ==> x > a.Entries[k].Index
+//@   ensures  nothing_deleted_below_first_entry: forall x uint64 :: old(r.logs.has[x]) && !r.logs.has[x] ==> len(a.Entries) > 0 && x > a.PrevLogEntry
+//@   ensures  no_conflict_no_delete: (forall k int :: 0 <= k && k < len(a.Entries) && a.Entries[k].Index <= old(r.lastLogIndex) ==>
+//@                  old(r.logs.has[a.Entries[k].Index]) && old(r.logs.ent[a.Entries[k].Index].Term) == a.Entries[k].Term)
+//@              ==> forall x uint64 :: old(r.logs.has[x]) ==> r.logs.has[x]
+//@   ensures  kept_entries_unchanged: forall x uint64 :: old(r.logs.has[x]) && r.logs.has[x] &&
+//@              (forall k int :: 0 <= k && k < len(a.Entries) ==> a.Entries[k].Index != x) ==> r.logs.ent[x] == old(r.logs.ent[x])
+//@   ensures  commit_le_last: r.commitIndex != old(r.commitIndex) ==> r.commitIndex <= lastEntryIndex(r)
+//@   ensures  commit_is_min: r.commitIndex != old(r.commitIndex) ==> r.commitIndex == min(a.LeaderCommitIndex, lastEntryIndex(r))
+//@   ensures  commit_monotone: old(r.commitIndex) <= old(lastEntryIndex(r)) && (len(a.Entries) == 0 || a.PrevLogEntry + len(a.Entries) >= old(r.commitIndex))
+//@              ==> r.commitIndex >= old(r.commitIndex)
+//@   ensures  commit_only_on_success: r.commitIndex != old(r.commitIndex) ==> aeResp(rpc).Success
+//@   ensures  leader_of_current_term: aeResp(rpc).Success ==> r.leaderID == ServerID(content(a.ID))
+//@   at call LogStore.StoreLogs#1 assert new_is_suffix: len(newEntries) <= len(a.Entries) && (forall k int :: 0 <= k && k < len(newEntries) ==>
+//@              newEntries[k] == a.Entries[len(a.Entries) - len(newEntries) + k])
+//@   at call LogStore.StoreLogs#1 assert skipped_match: forall j int :: 0 <= j && j < len(a.Entries) - len(newEntries) ==>
+//@              r.logs.has[a.Entries[j].Index] && r.logs.ent[a.Entries[j].Index].Term == a.Entries[j].Term
+//@   loop 2 invariant new_stored: forall k int :: 0 <= k && k < len(newEntries) ==>
+//@              r.logs.has[newEntries[k].Index] && r.logs.ent[newEntries[k].Index].Term == newEntries[k].Term
+//@   loop 2 invariant skipped_still_match: forall j int :: 0 <= j && j < len(a.Entries) - len(newEntries) ==>
+//@              r.logs.has[a.Entries[j].Index] && r.logs.ent[a.Entries[j].Index].Term == a.Entries[j].Term
+//@   loop 2 invariant suffix: len(newEntries) <= len(a.Entries) && (forall k int :: 0 <= k && k < len(newEntries) ==>
+//@              newEntries[k] == a.Entries[len(a.Entries) - len(newEntries) + k])
+//@   loop 2 invariant suffix_rev: forall k int :: len(a.Entries) - len(newEntries) <= k && k < len(a.Entries) ==>
+//@              a.Entries[k] == newEntries[k - (len(a.Entries) - len(newEntries))]
+//@   loop 1 invariant matched_prefix: forall j int :: 0 <= j && j < #i ==> a.Entries[j].Index <= lastLogIdx &&
+//@              r.logs.has[a.Entries[j].Index] && r.logs.ent[a.Entries[j].Index].Term == a.Entries[j].Term
+
+//@ func (s *followerReplication) notifyAll
+//@   requires nonnil: s != nil && s.notify != nil
+//@   requires futures_valid: forall w *verifyFuture :: dom(s.notify, w) ==> w != nil && w.votes < MaxInt63
+//@   ensures  cleared: forall w *verifyFuture :: !dom(s.notify, w)
+//@   ensures  fresh_set: s.notify != nil && s.notify != old(s.notify)
+//@   at call (*verifyFuture).vote#1 assert deregistered_before_vote: forall w *verifyFuture :: !dom(s.notify, w)
+//@   loop 1 invariant emptied: (forall w *verifyFuture :: !dom(s.notify, w)) && s.notify != nil && s.notify != old(s.notify) && isfresh(s.notify)
+//@   loop 1 invariant bounded: forall j int :: #i <= j && j < #card ==> #key(j) != nil && #key(j).votes < MaxInt63
